@@ -1854,3 +1854,7 @@ mod tests {
         assert!(crate::parser::parse_kml(r#"MERGE CONCEPT :a INTO :b LIMIT 1"#).is_err());
     }
 }
+
+#[cfg(kani)]
+#[path = "/verif/harness/anda_kip/parser_kml.rs"]
+mod verif_kani;
